@@ -73,18 +73,10 @@ def value_of(info, name):
     return None
 
 
-def run(drv, built, proof, info, workdir):
+def build(drv, workdir):
+    """compile the driver against the tree under check; returns (exe, None) or (None, error-dict)"""
     name = drv['driver']
     src = os.path.join(ROOT, 'replay', 'drivers', name + '.cc')
-    argv = []
-    for a in drv.get('argv', []):
-        if a.startswith('$'):
-            v = value_of(info, a[1:])
-            if v is None:
-                return {'reproduced': False, 'error': 'no value for %s in the counterexample' % a}
-            argv.append(v)
-        else:
-            argv.append(a)
     exe = os.path.join(workdir, 'native_' + name)
     cmd = CXX + ['-fno-access-control'] + incs() + [src]
     if drv.get('include_cc'):          # the real .cc textually (functions that are inline there)
@@ -94,7 +86,11 @@ def run(drv, built, proof, info, workdir):
     cmd += ['-lpthread', '-o', exe]
     p = subprocess.run(cmd, stdout=subprocess.PIPE, stderr=subprocess.STDOUT, text=True)
     if p.returncode != 0:
-        return {'reproduced': False, 'error': 'driver does not build against this tree', 'build_output': p.stdout[-3000:], 'build_cmd': ' '.join(cmd[:12]) + ' ...'}
+        return None, {'reproduced': False, 'error': 'driver does not build against this tree', 'build_output': p.stdout[-3000:], 'build_cmd': ' '.join(cmd[:12]) + ' ...'}
+    return exe, None
+
+
+def execute(exe, argv):
     try:
         r = subprocess.run([exe] + argv, stdout=subprocess.PIPE, stderr=subprocess.STDOUT, text=True, timeout=120,
                            env=dict(os.environ, ASAN_OPTIONS='detect_leaks=0'))
@@ -103,8 +99,42 @@ def run(drv, built, proof, info, workdir):
         out, rc = (e.stdout or '') + '\n[timeout 120 s]', -1
     # exit 1 with REPRODUCED, a sanitizer report or a hang all are the real code failing on this input; exit 3 is a usage error
     reproduced = (rc == 1 and 'REPRODUCED' in out) or 'ERROR: AddressSanitizer' in out or 'runtime error:' in out or rc == -1
-    return {'reproduced': bool(reproduced), 'drv': dict(drv, argv=argv), 'driver': os.path.relpath(src, ROOT), 'argv': argv, 'exit': rc, 'output': out[-4000:],
-            'how_to_rerun': 'build: %s ; run: %s %s' % (' '.join(cmd[:10]) + ' ... (tools/replay_native.py)', os.path.basename(exe), ' '.join(argv))}
+    return bool(reproduced), rc, out
+
+
+def run(drv, built, proof, info, workdir):
+    argv = []
+    for a in drv.get('argv', []):
+        if a.startswith('$'):
+            v = value_of(info, a[1:])
+            if v is None:
+                return {'reproduced': False, 'error': 'no value for %s in the counterexample' % a}
+            argv.append(v)
+        else:
+            argv.append(a)
+    exe, err = build(drv, workdir)
+    if err:
+        return err
+    reproduced, rc, out = execute(exe, argv)
+    src = os.path.join('replay', 'drivers', drv['driver'] + '.cc')
+    return {'reproduced': reproduced, 'drv': dict(drv, argv=argv), 'driver': src, 'argv': argv, 'exit': rc, 'output': out[-4000:],
+            'how_to_rerun': './replay_run <this file>   (rebuilds %s against the tree under check and runs it on: %s)' % (src, ' '.join(argv))}
+
+
+def sweep(spec, workdir):
+    """thorough tier: run a driver over a fixed list of inputs on the real code (a bounded cross-check of contracts AND models)"""
+    exe, err = build(spec, workdir)
+    if err:
+        return {'error': err.get('error'), 'build_output': err.get('build_output'), 'ran': 0, 'failed': []}
+    failed = []
+    for argv in spec['argvs']:
+        argv = [str(x) for x in argv]
+        rep, rc, out = execute(exe, argv)
+        if rc == 3:
+            return {'error': 'driver usage error on %s' % ' '.join(argv), 'ran': 0, 'failed': []}
+        if rep:
+            failed.append({'argv': argv, 'exit': rc, 'output': out[-2000:]})
+    return {'ran': len(spec['argvs']), 'failed': failed}
 
 
 def main():
